@@ -44,7 +44,7 @@ func roleTaint(c *Ctx, noArith bool, seeds ...ssa.Value) *Taint {
 
 func ruleC16(c *Ctx, r *Report) {
 	an := c.anchors()
-	if !requireAnchors(r, an, "C16-anchor") {
+	if !requireAnchors(r, an, "C16-anchor", "redact", "stream") {
 		return
 	}
 	a := c.atlasAnchors(r, "C16-anchor")
@@ -393,6 +393,9 @@ func ruleC16(c *Ctx, r *Report) {
 	r.Floor("C16-R6", 1, "per-file loop")
 	c16Pairing(c, r, an, a)
 	encryptHonouredRule(c, r, c.anchors(), "C16-R6")
+	if an := c.anchors(); an.StreamFn != nil {
+		gzipReaderRule(c, r, an.StreamFn, "C16-R6")
+	}
 }
 
 func isUnixNow(v ssa.Value) bool {
